@@ -1236,6 +1236,19 @@ static string opBddToTd(const vector<string>& a)
 	bool first = true;
 	for (auto& p : dict) { if (!first) out << ","; out << numAfter(p.first, 'q') << ">" << p.second; first = false; }
 	if (first) out << "-";
+	if (a.size() > 1) {
+		// mixed provenance: the CONVERTED automaton meets a natively LOADED top-down automaton (both directions)
+		AutBase::StateDict dictB;
+		TD TB = loadBdd<TD>(parseTA(a.at(1)), dictB);
+		out << " tb=" << dumpBdd(TB);
+		out << " i1=" << dumpBdd(TD::Intersection(T, TB));
+		out << " i2=" << dumpBdd(TD::Intersection(TB, T));
+		out << " u=" << dumpBdd(TD::Union(T, TB));
+		vector<std::function<char()>> calls;
+		calls.push_back(verdictFn([&]() { return TD::CheckInclusion(T, TB, mkParam(2 | 8)); }));
+		calls.push_back(verdictFn([&]() { return TD::CheckInclusion(TB, T, mkParam(2 | 8)); }));
+		out << " v=" << forkedSeq(calls, g_selTimeout);
+	}
 	return out.str();
 }
 
